@@ -609,7 +609,11 @@ def compare(ctx, case, opt, gnu_out, clone_out, what=None, mark=None, tag='', in
         rf_g, rf_c = bool(_RANGE_FALLTHROUGH.search(lg)), bool(_RANGE_FALLTHROUGH.search(lc))
         if info and info['e_machine'] != 40 and not rf_g and re.search(r'dw_op_\w+: \d+ \(r\d+\)', lg) and not re.search(r'\(r\d+\)', lc):
             rf_g = True         # GNU's text for a DWARF register number it has no name for (rN is a real name on ARM only)
-        if any(t in lc for t in _CLONE_UNKNOWN) or (rf_c and not rf_g):
+        # e_flags values are synthesized from fields and bits the clone's own tables name: there an "<unknown>" of the clone that GNU does
+        # not print is a difference like any other, not the edge of the envelope
+        # (its "<unrecognized EABI>" for ARM EABI versions other than 5 stays outside: the clone does not claim those)
+        own_domain = bool(what) and what.startswith('e_flags|') and '<unknown>' in lc and 'unrecognized' not in lc and not any(t in lg for t in _GNU_UNKNOWN)
+        if (any(t in lc for t in _CLONE_UNKNOWN) or (rf_c and not rf_g)) and not own_domain:
             ctx.count('envelope.clone_unknown|%s' % ko)
         elif any(t in lg for t in _GNU_UNKNOWN) or (rf_g and not rf_c):
             ctx.count('envelope.oracle_unknown|%s' % ko)
